@@ -430,12 +430,20 @@ func (c *Channel) FinishMessage(clientID int64, id MessageID) error {
 //
 //	and requeue a message (aka "deferred requeue")
 func (c *Channel) RequeueMessage(clientID int64, id MessageID, timeout time.Duration) error {
-	// remove from inflight first
+	// remove from inflight first, and tell the client in the same breath: the
+	// read lock keeps Empty() out between the two (see protocolV2.FIN); it is
+	// not held while the message is put back, which may wait for the exit lock
+	c.RLock()
 	msg, err := c.popInFlightMessage(clientID, id)
 	if err != nil {
+		c.RUnlock()
 		return err
 	}
 	c.removeFromInFlightPQ(msg)
+	if client, ok := c.clients[clientID].(interface{ RequeuedMessage() }); ok {
+		client.RequeuedMessage()
+	}
+	c.RUnlock()
 	atomic.AddUint64(&c.requeueCount, 1)
 
 	if timeout == 0 {
@@ -657,6 +665,10 @@ func (c *Channel) processInFlightQueue(t int64) bool {
 		// sections its client could requeue it and have it delivered again, and the
 		// new in-flight entry (same id, same client) would be mistaken for this one -
 		// the message would then exist twice
+		//
+		// the channel's read lock keeps Empty() out until the client's count has
+		// been adjusted (see protocolV2.FIN)
+		c.RLock()
 		c.inFlightMutex.Lock()
 		msg, _ := c.inFlightPQ.PeekAndShift(t)
 		stillHeld := false
@@ -667,20 +679,21 @@ func (c *Channel) processInFlightQueue(t int64) bool {
 		c.inFlightMutex.Unlock()
 
 		if msg == nil {
+			c.RUnlock()
 			goto exit
 		}
 		dirty = true
 
 		if !stillHeld {
+			c.RUnlock()
 			goto exit
 		}
 		atomic.AddUint64(&c.timeoutCount, 1)
-		c.RLock()
 		client, ok := c.clients[msg.clientID]
-		c.RUnlock()
 		if ok {
 			client.TimedOutMessage()
 		}
+		c.RUnlock()
 		c.put(msg)
 	}
 
